@@ -6,6 +6,11 @@ props = [json.loads(l) for l in open(os.path.join(V, 'properties.jsonl'))]
 
 # id -> (technique, level text, level note, design ref)
 CLAIMED = {
+ 'C10': ("property-based generation of modules with synthesized DWARF (proptest) + LLVM-made corpus, gimli read-back against an independently derived offset map",
+         "Well-formed DWARF 4/5 is synthesized for generated modules (one row per operator with a unique line number, one subprogram per function, single- and multi-function sequences, both low_pc conventions, v5 rows naming file 0, function counts and body sizes around LEB boundaries); after unchanged / GC / instruction-insertion round trips the output DWARF is read back with gimli and every row and subprogram range is checked against the true instruction map obtained from independent decodes and the verified bijection. clang/wasm-ld outputs committed under corpus/real cover real LLVM DWARF 4 and 5.",
+         "Functions that have a content-identical unreferenced twin cannot be tracked and are not judged; multi-function sequences and the entry-start low_pc convention are recorded known findings.",
+         "DESIGN.md §4 C10, §2.4"),
+
  'C11': ("property-based generation x {unchanged, inserted instructions, GC} (proptest), spy CustomSection + independently derived true offset map",
          "A spy custom section records the CodeTransform; every (input offset, output offset) pair must lie in the true instruction map derived from independent decodes of both binaries and the verified bijection, no pair may carry the default location, every function range must equal the emitted code entry of the function's image, and code_section_start must be the output's code-section content start. Exploration over sampled modules incl. function counts around 127/128.",
          "Pairs that fall into dead code walrus happens to retain cannot be judged and are counted separately.",
